@@ -274,10 +274,41 @@ fn run_history(cx: &Ctx, c: &Value, dir: &Path, seed: u64) {
     let nfiles = init.len() + 1 + lf as usize + at as usize;
     let hsize = ((nfiles * 2).max(16) as u64).next_power_of_two();
     let mut uni = Uni { abs: vec![], conc: vec![] };
+    // pairs (n, inside): the spelling of `n` must be a substring of the spelling of `inside`
+    // (update_listfile tests `content.contains(name)`): both are found together, `inside` = "x" + n
+    let mut forced: std::collections::HashMap<String, String> = std::collections::HashMap::new();
+    if let Some(subs) = c.get("sub").and_then(|x| x.as_array()) {
+        let home_of = |x: &str| ga(c, "names").iter().find(|nm| gs(nm, "n") == x).map(|nm| gi(nm, "home") as u64);
+        for sp in subs {
+            let (n, inside) = (gs(sp, "n"), gs(sp, "inside"));
+            if let (Some(hn), Some(hi)) = (home_of(n), home_of(inside)) {
+                let mut rng = Rng::derive(seed, &format!("sub:{n}"));
+                let start = rng.below(500);
+                let mut found = false;
+                for k in start..start + 400_000 {
+                    let cn = format!("data\\{n}_{k}.bin");
+                    let ci = format!("x{cn}");
+                    let h = |x: &str| (hash_string(x, hash_type::TABLE_OFFSET) as u64) & (hsize - 1);
+                    if h(&cn) == hn % hsize && h(&ci) == hi % hsize {
+                        forced.insert(n.to_string(), cn);
+                        forced.insert(inside.to_string(), ci);
+                        found = true;
+                        break;
+                    }
+                }
+                if !found {
+                    tool_error("no substring name pair with the requested home slots found");
+                }
+            }
+        }
+    }
     for nm in ga(c, "names") {
         let n = gs(nm, "n");
         let home = gi(nm, "home") as u64;
-        let cn = concretise(n, home, hsize, seed, &uni.conc);
+        let cn = match forced.get(n) {
+            Some(f) => f.clone(),
+            None => concretise(n, home, hsize, seed, &uni.conc),
+        };
         uni.abs.push(n.to_string());
         uni.conc.push(cn);
     }
